@@ -1078,6 +1078,15 @@ func walkSelected(sel map[int]bool, n int, step func(int)) {
 	}
 }
 
+// KERNELUNIQ control: two operations wired to one kernel
+type toyRing struct{ q uint64 }
+
+func addtoyvec(a, b []uint64, q uint64)     {}
+func addlazytoyvec(a, b []uint64, q uint64) {}
+
+func (t *toyRing) AddToy(a, b []uint64)     { addlazytoyvec(a, b, t.q) }
+func (t *toyRing) AddLazyToy(x, y []uint64) { addlazytoyvec(x, y, t.q) }
+
 // ADVFWD control: the wrapper halves the forwarded count
 type wrapParams struct{ rows int }
 
